@@ -26,8 +26,15 @@ CONFIGS = [
     ("it2", "MC_Flurry", "MC_it2.cfg", {"C07", "C10"}, "ok", "quick", ["ItDescend", "ItYield"]),
     ("it3", "MC_Flurry", "MC_it3.cfg", {"C07"}, "ok", "quick", ["ItYield", "Reval"]),
     ("it2_mutant", "MC_Flurry", "MC_it2_mutant.cfg", {"C07"}, "IterWeak", "quick", []),
+    # retain / retain_force: the conditional removal against replacements, removal + re-insertion, and a resize
+    ("rt1", "MC_Flurry", "MC_rt1.cfg", {"C13"}, "ok", "quick", ["RtReval", "ItYield"]),
+    ("rt2", "MC_Flurry", "MC_rt2.cfg", {"C13", "C07"}, "ok", "quick", ["RtReval", "XStoreFwd"]),
+    ("rt3", "MC_Flurry", "MC_rt3.cfg", {"C13"}, "ok", "quick", ["RtReval"]),
+    ("rt1_mutant", "MC_Flurry", "MC_rt1_mutant.cfg", {"C13"}, "RetainOK", "quick", []),
     ("clr1", "MC_Flurry", "MC_clr1.cfg", {"C05", "C10"}, "ok", "quick", ["ClrReval", "XStoreFwd"]),
     ("clr2", "MC_Flurry", "MC_clr2.cfg", {"C05", "C07"}, "ok", "quick", ["ClrReval", "ItYield"]),
+    # reserve() / try_presize racing the lazy initialisation and an insert (null table, DCAP = 2, one resize)
+    ("rsv1", "MC_Flurry", "MC_rsv1.cfg", {"C14", "C10", "C11"}, "ok", "thorough", ["PsCasInit", "PsInitSwap", "PsCasStart"]),
     ("sizing", "Sizing", "Sizing.cfg", {"C14", "C10"}, "ok", "quick", []),
     ("reclaim", "Reclaim", "MC_Reclaim.cfg", {"C03", "C04"}, "ok", "quick", []),
     ("reclaim_unprotected", "Reclaim", "MC_Reclaim_unprotected.cfg", {"C03"}, "NoUseAfterFree", "quick", []),
@@ -53,7 +60,7 @@ def run_for(pid, tier, workers=6):
             continue
         if ctier == "thorough" and tier != "thorough":
             continue
-        want_cov = bool(must) and pid in ("C01", "C07", "C10", "C11")
+        want_cov = bool(must) and pid in ("C01", "C07", "C10", "C11", "C13", "C14")
         if expect == "sim":
             r = lib.run_tlc(module, cfg=cfg, workers=workers, timeout=1500, simulate=300000, depth=150, xmx="8g")
             if "Error:" in r["out"] and "violated" in r["out"]:
